@@ -257,27 +257,34 @@ func c16Schemas(level int) []c16Schema {
 		"properties": J{"id": J{"type": "string"}, "user_id": J{"type": "integer"}, "homeUrl": J{"type": "string", "minLength": 1}, "url": J{"type": "object", "title": "url holder", "properties": J{"id": J{"type": "string"}}, "required": A{"id"}},
 			"ids": J{"type": "array", "items": J{"type": "string", "enum": A{"id", "url-x"}}}},
 		"required": A{"id"}}, nil})
+	branches := A{J{"type": "object", "properties": J{"a": J{"type": "string"}}, "required": A{"a"}}, J{"type": "object", "properties": J{"b": J{"type": "integer"}}, "required": A{"b"}}}
+	out = append(out, c16Schema{"root-anyof", J{"$id": "https://example.com/schema", "title": "either Way", "type": "object", "anyOf": branches}, nil})
+	out = append(out, c16Schema{"root-allof", J{"$id": "https://example.com/schema", "title": "both Ways", "type": "object", "allOf": branches}, nil})
 	out = append(out, c16FileRefs()...)
 	return out
 }
 
 type c16Variant struct {
-	name string
-	mod  func(*genlab.Cfg)
-	rel  string
+	name       string
+	mod        func(*genlab.Cfg)
+	rel        string
+	functional bool // the renaming need not be injective (see relRename)
 }
 
 func c16Variants() []c16Variant {
 	return []c16Variant{
-		{"only-models", func(c *genlab.Cfg) { c.OnlyModels = true }, "only-models"},
-		{"tags=json", func(c *genlab.Cfg) { c.Tags = []string{"json"} }, "tags"},
-		{"tags=yaml,custom", func(c *genlab.Cfg) { c.Tags = []string{"yaml", "custom"} }, "tags"},
-		{"caps=ID,URL", func(c *genlab.Cfg) { c.Caps = []string{"ID", "URL"} }, "rename"},
-		{"title", func(c *genlab.Cfg) { c.StructNameFromTitle = true }, "rename"},
+		{"only-models", func(c *genlab.Cfg) { c.OnlyModels = true }, "only-models", false},
+		{"tags=json", func(c *genlab.Cfg) { c.Tags = []string{"json"} }, "tags", false},
+		{"tags=yaml,custom", func(c *genlab.Cfg) { c.Tags = []string{"yaml", "custom"} }, "tags", false},
+		{"caps=ID,URL", func(c *genlab.Cfg) { c.Caps = []string{"ID", "URL"} }, "rename", false},
+		{"title", func(c *genlab.Cfg) { c.StructNameFromTitle = true }, "rename", false},
 		{"root-type", func(c *genlab.Cfg) {
 			c.Mappings = []genlab.Mapping{{ID: "https://example.com/schema", Package: "s", Output: "-", Root: "RenamedRoot"}}
-		}, "rename"},
-		{"no-extra-imports", func(c *genlab.Cfg) { c.ExtraImports = false }, "extra-imports"},
+		}, "rename", false},
+		{"root-type-lower-case", func(c *genlab.Cfg) {
+			c.Mappings = []genlab.Mapping{{ID: "https://example.com/schema", Package: "s", Output: "-", Root: "renamedRoot"}}
+		}, "rename", true},
+		{"no-extra-imports", func(c *genlab.Cfg) { c.ExtraImports = false }, "extra-imports", false},
 	}
 }
 
@@ -366,7 +373,16 @@ func c16(ctx *Ctx) {
 				case "tags":
 					msg = relTags(base, vs, cfgs[k].Cfg.Tags)
 				case "rename":
-					msg = relRename(base, vs)
+					msg = relRename(base, vs, !v.functional)
+					if msg == "" && v.functional {
+						// a lower-case type name makes the helper variable and the helper type one identifier (kept apart by scoping):
+						// the renamed output must then at least be valid Go
+						for name, d := range res[k].Diags {
+							if !d.OK() {
+								msg = "the renamed output " + name + " is not valid Go: " + d.Summary()
+							}
+						}
+					}
 				case "extra-imports":
 					msg = relExtraImports(base, vs)
 				}
@@ -481,7 +497,10 @@ func relExtraImports(withExtra, without string) string {
 }
 
 // relRename: the two outputs are equal up to one consistent bijective renaming of identifiers.
-func relRename(base, vs string) string {
+// relRename: vs is base with identifiers renamed consistently. injective = the renaming must be a bijection per namespace; otherwise
+// it only has to be a function (two base identifiers may get one name where Go's scoping keeps them apart - the caller then also
+// requires that the renamed output type-checks).
+func relRename(base, vs string, injective bool) string {
 	bd, _ := parseDecls(base)
 	vd, _ := parseDecls(vs)
 	if len(bd) != len(vd) {
@@ -526,7 +545,7 @@ func relRename(base, vs string) string {
 		if x, ok := fwd[a]; ok && x != b {
 			return false
 		}
-		if x, ok := bwd[b]; ok && x != a {
+		if x, ok := bwd[b]; ok && x != a && injective {
 			return false
 		}
 		fwd[a], bwd[b] = b, a
